@@ -21,6 +21,18 @@ def _emit(kind, **kw):
     log.append(kw)
 
 
+def _vd(value):
+    """Digest of an array value *at the time of the event* (the array object itself may be altered later)."""
+    try:
+        import numpy
+        if isinstance(value, numpy.ndarray) and value.size <= 4000000:
+            from mpv import arr
+            return arr.digest(value)
+    except Exception:
+        pass
+    return None
+
+
 def install():
     """Replace the documented Command.result property and Command.run by recording versions (idempotent)."""
     if _state["installed"]:
@@ -38,7 +50,7 @@ def install():
         fin = bool(getattr(self, "is_finished", False))
         _emit("read", reader=reader, target=getattr(self, "result_name", "?"), finished=fin, target_id=id(self))
         value = orig_prop.fget(self)
-        _emit("read_done", reader=reader, target=getattr(self, "result_name", "?"), value_id=id(value), target_id=id(self), value=value)
+        _emit("read_done", reader=reader, target=getattr(self, "result_name", "?"), value_id=id(value), target_id=id(self), value=value, vdigest=_vd(value))
         return value
 
     def run(self):
@@ -111,7 +123,7 @@ def _wrap(cmd):
             _emit("exec_raise", name=name, exc=type(e).__name__)
             raise
         _state["stack"].pop()
-        _emit("exec_exit", name=name, value_id=id(value), obj=id(cmd), value=value)
+        _emit("exec_exit", name=name, value_id=id(value), obj=id(cmd), value=value, vdigest=_vd(value))
         hook = _state.get("on_exit")
         if hook:
             hook(cmd, value)
